@@ -201,6 +201,12 @@ pub struct World {
     pub contract: Addr,
 }
 
+/// the migration admin the chain reports for every contract under test (never one of the actors)
+pub fn chain_admin() -> String {
+    static A: std::sync::OnceLock<String> = std::sync::OnceLock::new();
+    A.get_or_init(|| mk_addr("chain-admin")).clone()
+}
+
 pub fn mk_addr(name: &str) -> String {
     MockApi::default().addr_make(name).into_string()
 }
@@ -208,10 +214,19 @@ pub fn mk_addr(name: &str) -> String {
 impl World {
     pub fn new(height: u64, time_s: u64) -> World {
         install_panic_hook();
+        // the chain knows every contract's migration admin: contracts may ask (WasmQuery::ContractInfo)
+        let mut querier = MockQuerier::default();
+        querier.update_wasm(|q| match q {
+            cosmwasm_std::WasmQuery::ContractInfo { .. } => {
+                let info = cosmwasm_std::ContractInfoResponse::new(1, Addr::unchecked(mk_addr("creator")), Some(Addr::unchecked(chain_admin())), false, None);
+                cosmwasm_std::SystemResult::Ok(cosmwasm_std::ContractResult::Ok(cosmwasm_std::to_json_binary(&info).unwrap()))
+            }
+            _ => cosmwasm_std::SystemResult::Err(cosmwasm_std::SystemError::UnsupportedRequest { kind: "only ContractInfo is answered".into() }),
+        });
         World {
             store: MemStorage::default(),
             api: CachedApi::default(),
-            querier: MockQuerier::default(),
+            querier,
             block: BlockInfo {
                 height,
                 time: Timestamp::from_seconds(time_s),
